@@ -14,25 +14,25 @@ import (
 )
 
 type RunConfig struct {
-	PkgPath     string // import path of the harness package
-	Harness     string // function name
-	Params      []int  // concrete int parameters
-	MaxSteps    int
-	MaxDepth    int
-	MaxMake     int
-	MaxPaths    int
-	Workers     int
-	SolverBin   string
-	TimeoutMs   int
-	Known       []KnownClass
-	MapOrderMax int
+	PkgPath        string // import path of the harness package
+	Harness        string // function name
+	Params         []int  // concrete int parameters
+	MaxSteps       int
+	MaxDepth       int
+	MaxMake        int
+	MaxPaths       int
+	Workers        int
+	SolverBin      string
+	TimeoutMs      int
+	Known          []KnownClass
+	MapOrderMax    int
 	MapOrderSticky bool
-	SchedChoice bool
+	SchedChoice    bool
 	MaxSchedPoints int
-	Deadline    time.Time
-	AccessLog   bool
-	Trace       bool
-	UsePool     bool // take solvers from the global pool (one per path) instead of one per worker
+	Deadline       time.Time
+	AccessLog      bool
+	Trace          bool
+	UsePool        bool // take solvers from the global pool (one per path) instead of one per worker
 }
 
 var pools = map[string]chan *smt.Solver{}
